@@ -16,6 +16,7 @@ package tsi
 
 import (
 	"regexp"
+	"strings"
 
 	"github.com/openGemini/openGemini/lib/pool"
 	"github.com/openGemini/openGemini/lib/util"
@@ -112,16 +113,23 @@ func matchSeriesKeyTagFilter(tags influx.PointTags, tf *tagFilter, tagArray bool
 	matchKey := util.Bytes2str(tf.key)
 	matchValue := util.Bytes2str(tf.value)
 
+	// matchValue of a literal regexp is the literal text (see tagFilter.Init), not a regexp
 	var re *regexp.Regexp
-	if tf.isRegexp {
+	if tf.isRegexp && !tf.isLiteralRegexp {
 		re = regexp.MustCompile(matchValue)
+	}
+	matchRegex := func(value string) bool {
+		if tf.isLiteralRegexp {
+			return strings.Contains(value, matchValue)
+		}
+		return re.MatchString(value)
 	}
 
 	for _, tag := range tags {
 		if tag.Key == matchKey {
 			exist = true
 			if tf.isRegexp {
-				match = re.MatchString(tag.Value)
+				match = matchRegex(tag.Value)
 			} else {
 				match = matchWithNoRegex(matchValue, tag.Value)
 			}
@@ -141,7 +149,7 @@ func matchSeriesKeyTagFilter(tags influx.PointTags, tf *tagFilter, tagArray bool
 	}
 	// if matchKey is not exsit in tags, compare matchValue with empty string
 	if tf.isRegexp {
-		match = re.MatchString("")
+		match = matchRegex("")
 	} else {
 		match = matchWithNoRegex(matchValue, "")
 	}
